@@ -67,6 +67,22 @@ CHECKS = {
         technique=RM + 'reference-model monitor on matplotlib artists (PolyCollection paths/array/clim, Quiver X/Y/U/V, animation frames) under the Agg backend with self-identifying values + expected-error events + reach monitor',
         text='make_poly_collection (by name / by array / reduced datasets, overrides array / clim / transform), make_quiver and animate_on_figure on generated datasets with and without holes: one patch per cell with geometry in linear order with that cell\'s outline and value, default clim = range of the plotted values, arrows at face centres with the components of the same cell, leftover dimensions and array+data refused.',
         note=NOTE + 'No rendering, no coastline data. Variables on non-face kinds are not asserted (statement silent).', ref='DESIGN.md §5 C19'),
+    'C11': dict(
+        technique=RM + 'history + executable sequential model (binding histories with id() as unique values, enumerated exhaustively to a bounded length), executable restatement of the detection rule over datasets and near-misses, fresh-interpreter runs under several PYTHONHASHSEED values + reach monitor',
+        text='(a) get_dataset_convention / .ems on generated datasets, shuffled copies and 27 kinds of near-miss vs a restated rule, also in fresh interpreters with hash seeds 0/1/4242/random; (b) register_convention of 1-3 dummy conventions in every order (specificity, manual-before-entry-point, earlier-first ties), registry saved/restored per case; (c) ALL legal op sequences up to length 5 (quick) / 7 (thorough) over {access, construct+bind, shallow/deep copy, access on copy, bind copy} plus random ones to length 20, checked against a per-handle bound-object model.',
+        note=NOTE + 'A tie between two built-in conventions is not ordered, only checked for consistency. exhaustive in the evidence refers to the bounded history enumeration.', ref='DESIGN.md §5 C11'),
+    'C12': dict(
+        technique=RM + 'reference-model monitor with self-identifying values on ocean_floor (accessor and function) + in-situ icontract post-condition on _find_ocean_floor_indexes + reach monitor',
+        text='Datasets of all conventions with statically floored depth variables (0..K wet layers per column, gaps above the floor), positive up/down (any letter case, or absent), deep-first/shallow-first storage, 1-2 depth coordinates, depth dimension at every position, variables on several grid kinds and without depth: every reduced variable is compared bit-for-bit with the id of the physically deepest wet layer computed from the model; depth dimension and coordinates gone, everything else unchanged.',
+        note=NOTE + 'Within the documented assumption of a static floor per (depth axis, spatial dims) group; order of remaining dimensions and the fate of depth-bounds variables are counted, not asserted.', ref='DESIGN.md §5 C12'),
+    'C13': dict(
+        technique=RM + 'reference-model monitor with self-identifying layers on normalize_depth_variables for all nine option pairs, applied once and twice, with deep input snapshots (purity) + reach monitor',
+        text='For 2-8 level monotonic depth coordinates (attribute up/down in any case or absent, with/without bounds, dimension coordinate / non-index coordinate / plain variable, several coordinates per dataset) every clause is checked: attribute and values agree with the request, ordering as requested, bounds rows travel and flip with their layer, every data id still sits at its original physical depth, f(f(x)) == f(x), unset options change nothing, input untouched.',
+        note=NOTE + 'Coordinates without attribute avoid 0 and mixed signs so the documented majority-sign guess is unambiguous.', ref='DESIGN.md §5 C13'),
+    'C16': dict(
+        technique=RM + 'equivalence-class monitor: make_cache_key on a dataset and on constructed twins (22 invariant edits, 12 sensitive single geometry edits, netCDF round trips, fresh interpreters with different hash seeds) + mechanism classifier for the known marshal finding + reach monitor',
+        text='Same key demanded for edits of non-geometry content, rebuilt twins, reopened files and other processes; different key demanded for each single geometry edit (1 ulp, dtype, shape with same bytes, rename, attribute add/change/remove, different convention class).',
+        note=NOTE + 'Open known finding marshal-object-identity is reported as KNOWN-FINDING only when the harness fingerprint and a canonical re-serialisation of the attributes agree; sensitive edits must also change the canonical key so marshal noise cannot mask a miss.', ref='DESIGN.md §5 C16'),
 }
 
 PENDING_REASON = 'monitor not built yet in this session (planned, see DESIGN.md §5); will be claimed once its check runs clean on the unchanged tree'
